@@ -132,7 +132,8 @@ class Trend(BaseGridder):
         easting, northing = n_1d_arrays(coordinates, 2)
         self.region_ = get_region((easting, northing))
         jac = self.jacobian(
-            (easting, northing), dtype=np.result_type(data.dtype, np.float32)
+            (easting, northing),
+            dtype=np.result_type(data.dtype, easting.dtype, np.float32),
         )
         self.coef_ = least_squares(jac, data, weights, damping=None)
         return self
